@@ -267,6 +267,8 @@ enum ClassSetOperand {
     ClassSetCharacter(CodePoint),
     CharacterClassEscape(CodePointSet),
     Class(ClassSet),
+    // Class strings are normalized into a `Class` operand when parsed; see class_strings_operand.
+    #[allow(dead_code)]
     ClassStringDisjunction(ClassSetAlternativeStrings),
 }
 
@@ -1039,6 +1041,17 @@ where
                     // ClassEscape :: CharacterClassEscape :: W
                     'W' => {
                         self.consume('W');
+                        if self.flags.icase && self.flags.unicode {
+                            // The complement of WordCharacters, which under `iu` also contains the
+                            // characters folding to a word character (U+017F, U+212A).
+                            return Ok(Some(ClassAtom::Range {
+                                iv: unicode::add_icase_code_points(codepoints_from_class(
+                                    CharacterClassType::Words,
+                                    true,
+                                )),
+                                negate: true,
+                            }));
+                        }
                         Ok(Some(ClassAtom::CharacterClass {
                             class_type: CharacterClassType::Words,
                             positive: false,
@@ -1180,8 +1193,10 @@ where
             }
             // ClassIntersection :: ClassSetOperand && [lookahead ≠ &]
             ClassSetOperator::Intersection => {
+                result.codepoints = self.close_over_case(result.codepoints);
                 loop {
                     let operand = self.consume_class_set_operand(in_negated_class)?;
+                    let operand = self.fold_class_set_operand(operand);
                     result.intersect_operand(operand);
                     match self.next() {
                         Some(0x5D /* ] */) => return Ok(result),
@@ -1196,8 +1211,10 @@ where
             }
             // ClassSubtraction :: ClassSubtraction -- ClassSetOperand
             ClassSetOperator::Subtraction => {
+                result.codepoints = self.close_over_case(result.codepoints);
                 loop {
                     let operand = self.consume_class_set_operand(in_negated_class)?;
+                    let operand = self.fold_class_set_operand(operand);
                     result.subtract_operand(operand);
                     match self.next() {
                         Some(0x5D /* ] */) => return Ok(result),
@@ -1240,7 +1257,7 @@ where
                     }
                     result.absorb_single_character_strings();
                     result.alternatives.0.clear();
-                    result.codepoints = result.codepoints.inverted();
+                    result.codepoints = self.close_over_case(result.codepoints).inverted();
                 }
                 self.depth -= 1;
                 Ok(Class(result))
@@ -1284,49 +1301,49 @@ where
                                 }
                             }
                         }
-                        Ok(ClassStringDisjunction(ClassSetAlternativeStrings(alternatives)))
+                        Ok(self.class_strings_operand(alternatives))
                     }
                     // CharacterClassEscape :: d
                     0x64 /* d */ => {
                         self.consume('d');
-                        Ok(CharacterClassEscape(codepoints_from_class(CharacterClassType::Digits, true)))
+                        Ok(CharacterClassEscape(self.close_over_case(codepoints_from_class(CharacterClassType::Digits, true))))
                     }
                     // CharacterClassEscape :: D
                     0x44 /* D */ => {
                         self.consume('D');
-                        Ok(CharacterClassEscape(codepoints_from_class(CharacterClassType::Digits, false)))
+                        Ok(CharacterClassEscape(self.close_over_case(codepoints_from_class(CharacterClassType::Digits, true)).inverted()))
                     }
                     // CharacterClassEscape :: s
                     0x73 /* s */ => {
                         self.consume('s');
-                        Ok(CharacterClassEscape(codepoints_from_class(CharacterClassType::Spaces, true)))
+                        Ok(CharacterClassEscape(self.close_over_case(codepoints_from_class(CharacterClassType::Spaces, true))))
                     }
                     // CharacterClassEscape :: S
                     0x53 /* S */ => {
                         self.consume('S');
-                        Ok(CharacterClassEscape(codepoints_from_class(CharacterClassType::Spaces, false)))
+                        Ok(CharacterClassEscape(self.close_over_case(codepoints_from_class(CharacterClassType::Spaces, true)).inverted()))
                     }
                     // CharacterClassEscape :: w
                     0x77 /* w */ => {
                         self.consume('w');
-                        Ok(CharacterClassEscape(codepoints_from_class(CharacterClassType::Words, true)))
+                        Ok(CharacterClassEscape(self.close_over_case(codepoints_from_class(CharacterClassType::Words, true))))
                     }
                     // CharacterClassEscape :: W
                     0x57 /* W */ => {
                         self.consume('W');
-                        Ok(CharacterClassEscape(codepoints_from_class(CharacterClassType::Words, false)))
+                        Ok(CharacterClassEscape(self.close_over_case(codepoints_from_class(CharacterClassType::Words, true)).inverted()))
                     }
                     // CharacterClassEscape :: [+UnicodeMode] p{ UnicodePropertyValueExpression }
                     0x70 /* p */ => {
                         self.consume('p');
                         match self.try_consume_unicode_property_escape()? {
                             PropertyEscapeKind::CharacterClass(intervals) => {
-                                Ok(CharacterClassEscape(CodePointSet::from_sorted_disjoint_intervals(
+                                Ok(CharacterClassEscape(self.close_over_case(CodePointSet::from_sorted_disjoint_intervals(
                                     intervals.to_vec(),
-                                )))
+                                ))))
                             }
                             PropertyEscapeKind::StringSet(strings) => {
-                                Ok(ClassStringDisjunction(ClassSetAlternativeStrings(strings.iter().map(|s| Box::from(*s)).collect())))
+                                Ok(self.class_strings_operand(strings.iter().map(|s| Box::from(*s)).collect()))
                             }
                         }
                     }
@@ -1335,9 +1352,9 @@ where
                         self.consume('P');
                         match self.try_consume_unicode_property_escape()? {
                             PropertyEscapeKind::CharacterClass(s) => {
-                                Ok(CharacterClassEscape(CodePointSet::from_sorted_disjoint_intervals(
+                                Ok(CharacterClassEscape(self.close_over_case(CodePointSet::from_sorted_disjoint_intervals(
                                     s.to_vec(),
-                                ).inverted()))
+                                )).inverted()))
                             }
                             PropertyEscapeKind::StringSet(_) => error("Invalid character escape"),
                         }
@@ -1411,6 +1428,54 @@ where
             | 0x40 /* @ */ | 0x5E /* ^ */ | 0x60 /* ` */ | 0x7E /* ~ */ => true,
             _ => false,
         }
+    }
+
+    // MaybeSimpleCaseFolding for a v-mode class operand: under `i` every operand is closed over
+    // simple case folding before complements, intersections and subtractions are taken.
+    fn close_over_case(&self, cps: CodePointSet) -> CodePointSet {
+        if self.flags.icase {
+            unicode::add_icase_code_points(cps)
+        } else {
+            cps
+        }
+    }
+
+    // Prepare an operand of an intersection or subtraction: under `i` a single character stands
+    // for its whole case-folding class.
+    fn fold_class_set_operand(&self, operand: ClassSetOperand) -> ClassSetOperand {
+        match operand {
+            ClassSetOperand::ClassSetCharacter(c) if self.flags.icase => {
+                let mut cps = CodePointSet::new();
+                cps.add_one(c);
+                ClassSetOperand::CharacterClassEscape(self.close_over_case(cps))
+            }
+            ClassSetOperand::Class(mut class) => {
+                class.codepoints = self.close_over_case(class.codepoints);
+                ClassSetOperand::Class(class)
+            }
+            other => other,
+        }
+    }
+
+    // Build the operand for a list of class strings: single characters join the code point
+    // part, and under `i` all characters are folded so that strings compare case-insensitively.
+    fn class_strings_operand(&self, strings: Vec<Box<[CodePoint]>>) -> ClassSetOperand {
+        let mut class = ClassSet::new();
+        for string in strings {
+            class.may_contain_strings |= string.len() != 1;
+            if string.len() == 1 {
+                class.codepoints.add_one(string[0]);
+            } else if self.flags.icase {
+                let folded: Box<[CodePoint]> = string.iter().map(|&c| unicode::fold(c)).collect();
+                if !class.alternatives.contains(&folded) {
+                    class.alternatives.0.push(folded);
+                }
+            } else if !class.alternatives.contains(&string) {
+                class.alternatives.0.push(string);
+            }
+        }
+        class.codepoints = self.close_over_case(class.codepoints);
+        ClassSetOperand::Class(class)
     }
 
     fn try_consume_quantifier(&mut self) -> Result<Option<ir::Quantifier>, Error> {
@@ -1686,7 +1751,10 @@ where
                             // Per ES2024: apply SimpleCaseFolding to the property set first.
                             // For \P (inverted): complement before expansion so that case
                             // variants of the complement are included (existential quantifier).
-                            if negate {
+                            if negate && self.flags.unicode_sets {
+                                // In `v` mode the complement is taken after folding.
+                                cps = unicode::add_icase_code_points(cps).inverted();
+                            } else if negate {
                                 cps = unicode::add_icase_code_points(cps.inverted());
                             } else {
                                 cps = unicode::add_icase_code_points(cps);
